@@ -133,7 +133,7 @@ def dispatch (op : String) (args : List String) : String :=
   | "gswcwrite" | "gioswc" => AlgoRun.handleWriter op args
   | "gwrap" => AlgoRun.handleWrap args
   | "gwraptree" => AlgoRun.handleWrapTree args
-  | "gtreeinit" => AlgoRun.handleTreeInit args
+  | "gtreeinit" | "gfromdf" => AlgoRun.handleTreeInit op args
   | "gcopying" => AlgoRun.handleCopying args
   | _ => "bad-op"
 
